@@ -233,6 +233,32 @@ theorem goodOp_intro {st : Schemas} {o : Operation IR} (hp : GoodParams st o.par
   · exact hb x hx
   · exact hr r hr' x hx
 
+theorem exampleOf_exclusive (opts : List RespOpt) (n : Nat) :
+    ¬ ((exampleOf opts n).1 = true ∧ (exampleOf opts n).2 ≠ []) := by
+  unfold exampleOf
+  simp only []
+  split <;> simp
+
+/-- `attachEx` touches the example members only, and never sets both -/
+theorem mem_attachEx {opts : List RespOpt} {rs : List (Resp IR)} {r' : Resp IR}
+    (h : r' ∈ attachEx opts rs) :
+    ∃ r ∈ rs, r'.code = r.code ∧ r'.description = r.description ∧ r'.schema = r.schema ∧
+      ¬ (r'.hasExample = true ∧ r'.exampleNames ≠ []) := by
+  simp only [attachEx, List.mem_map] at h
+  obtain ⟨r, hr, rfl⟩ := h
+  refine ⟨r, hr, ?_⟩
+  split
+  · split
+    · exact ⟨rfl, rfl, rfl, exampleOf_exclusive _ _⟩
+    · exact ⟨rfl, rfl, rfl, by simp⟩
+  · exact ⟨rfl, rfl, rfl, by simp⟩
+
+theorem goodResps_attachEx {st : Schemas} {opts : List RespOpt} {rs : List (Resp IR)}
+    (h : GoodResps st rs) : GoodResps st (attachEx opts rs) := by
+  intro r' hr' x hx
+  obtain ⟨r, hr, _, _, hs, _⟩ := mem_attachEx hr'
+  exact h r hr x (by rw [← hs]; exact hx)
+
 theorem goodResps_default (st : Schemas) : GoodResps st defaultResps := by
   intro r hr x hx
   simp only [defaultResps, List.mem_singleton] at hr
@@ -270,6 +296,7 @@ theorem buildOperation_post (env : Env) (op : OpIn) (st : Schemas) (so : List B)
         · exact fun p hp => GoodT.mono (fun k hk => r1 k (b1 k hk)) (p3 p hp)
         · exact fun x hx => GoodT.mono r1 (b3 x hx)
         · simp only []
+          apply goodResps_attachEx
           split
           · exact goodResps_default _
           · exact r3
